@@ -310,7 +310,7 @@ def _strength_case(draw):
     n = draw(st.integers(1, 6))
     rr = st.one_of(st.just(0.0), st.floats(0.05, 0.6).map(lambda f: f * p["ri"]), st.floats(-10, -6.5).map(lambda e: 10 ** e))
     r = [draw(rr) for _ in range(n)]
-    Ls = [0.0 if x == 0 else 10 ** draw(st.floats(-9, -5.5)) for x in r]
+    Ls = [0.0 if (x == 0 or draw(st.integers(0, 11)) == 11) else 10 ** draw(st.floats(-9, -5.5)) for x in r]      # zero spacing also next to a non-zero radius ("all non-negative radii and spacings")
     return {"par": p, "r": r, "Ls": Ls, "ss": [10 ** draw(st.floats(5, 9)) * draw(st.sampled_from([0.0, 1.0, 1.0])) for _ in range(n)], "sigma0": draw(st.sampled_from([0.0, 1e7, 1e8]))}
 
 
